@@ -83,6 +83,10 @@ def run_case(case):
         return fail("attribute_raised", f"{attrs0}", attrs0.key, labels)
     executed = 0
     vias = set()
+    # a view that stays alive across the steps (rebuilt only when the storage is replaced by growth): what a caller holds
+    # who obtained the object once through _from_buffer
+    pview = sut(mat.view_of, obj) if spec["k"] != "unionref" else None
+    storage = obj._buffer.buffer
     for si, op in enumerate(case["ops"]):
         # which element is assigned (for the exclusion of its own sub-tree)
         before_model_slots = None
@@ -107,6 +111,26 @@ def run_case(case):
             d = tg.first_diff(spec, model, gv)
             if d:
                 return fail("view_value_after_assignment", f"after step {si} ({op['kind']}): {d}", f"{op['kind']}|{c01.diff_key(d)}", labels)
+        if pview is not None and not is_raised(pview):
+            if op["kind"] == "grow" or obj._buffer.buffer is not storage:
+                # the storage was replaced (explicit growth, or an allocation made by the step): views of the old storage
+                # are not expected to follow
+                pview = sut(mat.view_of, obj)
+                storage = obj._buffer.buffer
+            elif spec["k"] == "struct" and _root_dynitems(case) and r[1] == []:
+                # a whole-struct update through another handle: struct views copy the field offsets when they are built,
+                # so the kept view is stale - the open known finding (stale cached offsets), seen from the other side
+                labels.add("kept_view_skipped_open_finding")
+                pview = sut(mat.view_of, obj)
+            elif op["via"] == "handle" or not _root_dynitems(case):
+                # (a whole-object update made through ANOTHER view is the open known finding in the other direction)
+                gp = sut(mat.walk, pview, node)
+                if is_raised(gp):
+                    return fail("kept_view_read_raised", f"after step {si} ({op['kind']} via {op['via']}): {gp}", f"{op['kind']}|{gp.key}", labels)
+                d = tg.first_diff(spec, model, gp)
+                if d:
+                    return fail("kept_view_value", f"after step {si} ({op['kind']} via {op['via']}): a view taken before the step reads: {d}", f"{op['kind']}|{c01.diff_key(d)}", labels)
+                labels.add("kept_view_checked")
         attrs1 = sut(snapshot_attrs, obj, node, model)
         if is_raised(attrs1):
             return fail("attribute_raised", f"after step {si}: {attrs1}", attrs1.key, labels)
